@@ -154,13 +154,17 @@ func (c *GroupCoordinator) JoinGroup(ctx context.Context, req *kmsg.JoinGroupReq
 	} else if member.sessionTimeout == 0 {
 		member.sessionTimeout = defaultSessionTimeout
 	}
-	member.topics = c.parseSubscriptionTopics(req.Protocols)
+	topics := c.parseSubscriptionTopics(req.Protocols)
+	subscriptionChanged := exists && !sameTopics(member.topics, topics)
+	member.topics = topics
 	member.lastHeartbeat = time.Now()
 
 	if len(state.members) == 1 && state.state == groupStateEmpty {
 		state.leaderID = memberID
 		state.startRebalance(timeout)
-	} else if state.state == groupStateStable && !exists {
+	} else if state.state == groupStateStable && (!exists || subscriptionChanged) {
+		// A new member, or a known member whose subscription changed, invalidates
+		// the current assignment: it must be recomputed in a new generation.
 		state.startRebalance(timeout)
 	} else if state.state == groupStateEmpty {
 		state.startRebalance(timeout)
@@ -896,6 +900,18 @@ func (c *GroupCoordinator) assignPartitions(ctx context.Context, state *groupSta
 	}
 
 	return assignments
+}
+
+func sameTopics(a, b []string) bool {
+	if len(a) != len(b) {
+		return false
+	}
+	for i := range a {
+		if a[i] != b[i] {
+			return false
+		}
+	}
+	return true
 }
 
 func memberSubscribes(member *memberState, topic string) bool {
